@@ -334,7 +334,8 @@ def mrca_paths(paths):
 class Case(object):
     """one analysis input: tree + orthoXML content (+ the generating histories when there are any)"""
 
-    def __init__(self, tree, species, groups, use_internal=True, histories=None, singles=(), tag='', stats=None):
+    def __init__(self, tree, species, groups, use_internal=True, histories=None, singles=(), tag='', stats=None,
+                 consistent=True):
         self.tree = tree                  # T with the names as written in the Newick
         self.species = species            # [(name, [ {id:..., protId:..., ...} ])]
         self.groups = groups              # [item]
@@ -343,6 +344,7 @@ class Case(object):
         self.singles = list(singles)
         self.tag = tag
         self.stats = stats or {}
+        self.consistent = consistent      # inside the domain the properties quantify over
 
     def named_tree(self):
         return self.tree if self.use_internal else synth_names(self.tree)
